@@ -368,13 +368,13 @@ Proof. reflexivity. Qed.
 
 Lemma walk_loop vector rb b : ent_overhang_start vector = Ok rb -> b = okey (pr_seq rb) ->
   forall f d mp asm next used,
-  dict_rel d mp -> upper_word (pr_seq next) -> pr_kind asm = KSeqRecord ->
+  dict_rel d mp -> upper_word (pr_seq next) -> plain asm ->
   pr_seq asm = List.concat (map mfrag used) ->
   dwalk f b (okey (pr_seq next)) mp used <> WFuel ->
   match dwalk f b (okey (pr_seq next)) mp used with
   | WChain u rest => exists d' asm' next',
       py_while0 (S f) (d, asm, next) (walk_cond vector) walk_body = Ok (d', asm', next')
-      /\ dict_rel d' rest /\ pr_seq asm' = List.concat (map mfrag u) /\ pr_kind asm' = KSeqRecord
+      /\ dict_rel d' rest /\ pr_seq asm' = List.concat (map mfrag u) /\ plain asm'
   | WMissing o => exists k, py_while0 (S f) (d, asm, next) (walk_cond vector) walk_body = Err (XKeyError (KeySeq k))
                             /\ okey k = o
   | WFuel => True
@@ -397,7 +397,7 @@ Proof.
       destruct (dpop (okey (pr_seq next)) mp) as [[t rest]|].
       * destruct Hp as (e & Ep & Ge & Te & Hr).
         destruct (valid_all e t Ge Te) as (r2 & r3 & E2 & Kd & E3 & P3 & L3).
-        destruct (addm_seqrecords asm r3 La L3) as (asm' & Ea & Pa & La' & _).
+        destruct (addm_seqrecords asm r3 La L3) as (asm' & Ea & Pa & La').
         assert (Hbody : walk_body (d, asm, next) = Ok (dict_remove seq_keq d next, asm', seq_upper r2)).
         { unfold walk_body. rewrite Ep. cbn [bind]. rewrite E3. cbn [bind]. rewrite Ea. cbn [bind].
           rewrite E2. reflexivity. }
@@ -488,7 +488,7 @@ Proof.
   assert (Kn : okey (pr_seq (seq_upper r2)) = okey down) by (cbn; now rewrite okey_fold, P2).
   pose proof (walk_loop vector r1 (okey up) E1 (f_equal okey (eq_sym P1))
                 (S (List.length modules)) d' pre (mk_SeqRecord1 (mk_Seq [])) (seq_upper r2) []
-                Hrel Un eq_refl eq_refl) as WL.
+                Hrel Un (conj eq_refl eq_refl) eq_refl) as WL.
   rewrite Kn in WL.
   assert (Hnf : dwalk (S (List.length modules)) (okey up) (okey down) pre [] <> WFuel)
     by (apply (walk_fuel codes_eqb codes_eqb_spec); lia).
@@ -549,13 +549,13 @@ Qed.
 Lemma same_sf_concat x y x' y' : same_sf x x' -> same_sf y y' -> same_sf (concat_record x y) (concat_record x' y').
 Proof. intros [H1 H2] [H3 H4]. unfold same_sf, concat_record. cbn. now rewrite H1, H2, H3, H4. Qed.
 
-Lemma addm_seqrecords_rec x y : pr_kind x = KSeqRecord -> pr_kind y = KSeqRecord ->
-  exists r, py_addm x y = Ok r /\ pr_kind r = KSeqRecord /\ pr_annotations r = None
+Lemma addm_seqrecords_rec x y : plain x -> pr_kind y = KSeqRecord ->
+  exists r, py_addm x y = Ok r /\ plain r
             /\ to_record r = concat_record (to_record x) (to_record y).
 Proof.
-  unfold py_addm, PyAddM_rec, is_CircularRecord, bio_add, is_SeqRecord.
-  destruct x as [kx sx ix fx ax lx], y as [ky sy iy fy ay ly]. cbn. intros -> ->.
-  eexists; (split; [reflexivity|]); cbn; auto.
+  unfold plain, py_addm, PyAddM_rec, is_CircularRecord, bio_add, is_SeqRecord.
+  destruct x as [kx sx ix fx ax lx nx], y as [ky sy iy fy ay ly ny]. cbn. intros [-> Hx] ->.
+  eexists; (split; [reflexivity|]); cbn; repeat split. apply ann_common_topology. now left.
 Qed.
 
 Lemma product_snoc frs f : product (frs ++ [f]) = concat_record (product frs) f.
@@ -585,14 +585,14 @@ Qed.
 (* the walk, with the entities it consumes *)
 Lemma walk_loop_rec vector rb b : ent_overhang_start vector = Ok rb -> b = okey (pr_seq rb) ->
   forall f d mp asm next used usedE,
-  dict_rel d mp -> upper_word (pr_seq next) -> pr_kind asm = KSeqRecord ->
+  dict_rel d mp -> upper_word (pr_seq next) -> plain asm ->
   Forall2 (fun e t => tm_of e = Some t) usedE used ->
   same_sf (to_record asm) (product (map frag_rec usedE)) ->
   dwalk f b (okey (pr_seq next)) mp used <> WFuel ->
   match dwalk f b (okey (pr_seq next)) mp used with
   | WChain u rest => exists d' asm' next' uE,
       py_while0 (S f) (d, asm, next) (walk_cond vector) walk_body = Ok (d', asm', next')
-      /\ dict_rel d' rest /\ pr_kind asm' = KSeqRecord
+      /\ dict_rel d' rest /\ plain asm'
       /\ Forall2 (fun e t => tm_of e = Some t) uE u
       /\ same_sf (to_record asm') (product (map frag_rec uE))
       /\ incl uE (usedE ++ dict_values d)
@@ -618,7 +618,7 @@ Proof.
       destruct (valid_all e t Ge Te) as (r2 & r3 & E2 & Kd & E3 & P3 & L3).
       destruct (ent_target_record e t Ge Te) as (r3' & E3' & _ & Hsf3).
       assert (r3' = r3) by congruence. subst r3'.
-      destruct (addm_seqrecords_rec asm r3 La L3) as (asm' & Ea & La' & _ & Hrec').
+      destruct (addm_seqrecords_rec asm r3 La L3) as (asm' & Ea & La' & Hrec').
       assert (Hbody : walk_body (d, asm, next) = Ok (dict_remove seq_keq d next, asm', seq_upper r2)).
       { unfold walk_body. rewrite Ep. cbn [bind]. rewrite E3. cbn [bind]. rewrite Ea. cbn [bind].
         rewrite E2. reflexivity. }
@@ -717,7 +717,7 @@ Proof.
   assert (Kn : okey (pr_seq (seq_upper r2)) = okey down) by (cbn; now rewrite okey_fold, P2).
   pose proof (walk_loop_rec vector r1 (okey up) E1 (f_equal okey (eq_sym P1))
                 (S (List.length modules)) d' pre (mk_SeqRecord1 (mk_Seq [])) (seq_upper r2) [] []
-                Hrel Un eq_refl (Forall2_nil _) (conj eq_refl eq_refl)) as WL.
+                Hrel Un (conj eq_refl eq_refl) (Forall2_nil _) (conj eq_refl eq_refl)) as WL.
   rewrite Kn in WL.
   assert (Hnf : dwalk (S (List.length modules)) (okey up) (okey down) pre [] <> WFuel)
     by (apply (walk_fuel codes_eqb codes_eqb_spec); lia).
@@ -728,7 +728,7 @@ Proof.
   destruct (ent_target_record vector (TM (ent_id vector) (okey up) (okey down) fr) Gv) as (r3' & E3' & _ & Hsf3).
   { unfold tm_of, typed_module. now rewrite Hu, Hd, Hf. }
   assert (r3' = r3) by congruence. subst r3'.
-  destruct (addm_seqrecords_rec asm' r3 Ka K3) as (prod & Ep & Kp & Ap & Hrecp).
+  destruct (addm_seqrecords_rec asm' r3 Ka K3) as (prod & Ep & [Kp Ap] & Hrecp).
   assert (Hids_u : map ent_id uE = map mid u).
   { clear -HF. induction HF as [|e t uE u H0 H IH]; cbn; [reflexivity|]. now rewrite IH, (tm_id _ _ H0). }
   assert (Hprod : same_sf (to_record prod) (product (map frag_rec (uE ++ [vector]))))
